@@ -84,6 +84,10 @@ def scenarios(prop, quick, seed):
             sc = dict(base, size=["count", "none", "weight", "none"][j % 4], max=1 + j % 3, wt=[1, 2, 0, 1], syncexec=(j // 4) % 2)
             if sc["size"] == "none" and j % 8 == 1:
                 sc["expiry"] = 0       # no maintenance at all: the fast notification path
+            if prop == "C06" and j % 8 == 3:
+                # "long pass": the drain bound lowered to the size of a small buffer and a slow pass while producers keep writing - a pass meets more
+                # events than it may replay; every replaced value must still reach OnDeletion
+                sc.update(smallbuf=2, size="count", max=3 + j % 3, invall=0, policy="free", reads=0, syncexec=0, stale=0)
         if sc["smallbuf"] and not sc.get("oneprod"):
             sc["writers"], sc["ops"], sc["keys"] = 3 + j % 2, 8 + j % 4, 3 + j % 3
             if prop == "C14":
